@@ -222,6 +222,7 @@ func runC21(c *eng.Ctx) {
 	}
 	c.Expect("SIB-hardlink-read", 6)
 
+	releasedOnce(c, "COLLECT-hardlinks")
 	// (5) COLLECT-hardlinks: a recursive directory delete drops the children from the store wholesale, so the
 	// identities of the removed names are collected on the way (own children and, through the recursion, all
 	// deeper levels) and each collected occurrence is released exactly once
@@ -324,4 +325,33 @@ func runC21(c *eng.Ctx) {
 
 	errAll(c, "ERR-hardlink-paths", "weed/filer", "an error of a callee in the store wrapper reaches the caller", "(*FilerStoreWrapper).InsertEntry", "(*FilerStoreWrapper).UpdateEntry", "(*FilerStoreWrapper).DeleteFolderChildren", "(*FilerStoreWrapper).DeleteHardLink")
 	c.Expect("ERR-hardlink-paths", 10)
+}
+
+// releasedOnce: the name a delete request addresses gives up its share of a hard link inside the store wrapper
+// (DeleteOneEntry -> handleUpdateToHardLinks / DeleteHardLink); the identities DeleteEntryMetaAndData releases on top of
+// that are those of the children a recursive delete dropped wholesale, never the addressed entry's own identity (which
+// would be released twice: the counter falls below the number of live names and the shared chunks are deleted early).
+func releasedOnce(c *eng.Ctx, rule string) {
+	fn := c.NeedFunc("weed/filer", "(*Filer).DeleteEntryMetaAndData")
+	if fn == nil {
+		return
+	}
+	calls := eng.Find(fn, eng.PlainCallTo("filer.Filer).maybeDeleteHardLinks"))
+	one := eng.Find(fn, eng.PlainCallTo("filer.Filer).doDeleteEntryMetaAndData"))
+	if len(calls) == 0 || len(one) == 0 {
+		c.Undecided(rule, eng.FuncName(fn)+" released-once", fn.Pos(), "maybeDeleteHardLinks / doDeleteEntryMetaAndData calls not found")
+		return
+	}
+	for i, in := range calls {
+		own := false
+		eng.Walk(eng.Arg(in.(ssa.CallInstruction), 0), 10, func(y ssa.Value) bool {
+			if eng.FieldSpec(y) == "Entry.HardLinkId" {
+				own = true
+			}
+			return true
+		})
+		fromChildren := eng.MentionsCall(eng.Arg(in.(ssa.CallInstruction), 0), "filer.Filer).doBatchDeleteFolderMetaAndData")
+		c.Ob(rule, fmt.Sprintf("%s own-identity-released-once#%d", eng.FuncName(fn), i), !own && fromChildren, in.Pos(),
+			"the identities released after the delete are those collected from the deleted children; the addressed entry's own identity is released by the store wrapper's DeleteOneEntry only")
+	}
 }
